@@ -2,6 +2,7 @@ package rules
 
 import (
 	"fmt"
+	"go/token"
 	"go/types"
 	"sort"
 	"strings"
@@ -22,15 +23,16 @@ func init() {
 			"R3 Header has only scalar fields and the Header stored into the returned Message is freshly allocated; " +
 			"R4 no read-path function stores a pool-derived reference into a Message/AVP/Header or package-level location, and buffers are returned to the pool only by a deferred call at ReadMessage's exit; " +
 			"R5 no function reachable from the write / serialise / inspect API (WriteTo*, Serialize*, Len, String, PrettyDump, FindAVP*, Unmarshal) stores into a field of the Message, Header, AVP or GroupedAVP it was given. " +
-			"The rule removes the only shared storage every concurrent history would need. Not decided: histories as executions; values an application mutates itself.",
+			"R6 the handlers the library itself installs (package sm) treat the received message as read-only: no NewAVP / AddAVP / InsertAVP / Marshal on it, no store into its fields, and no store into an AVP taken from the struct it was parsed into. The rule removes the only shared storage every concurrent history would need. Not decided: histories as executions; values an application mutates itself.",
 		Rules: map[string]string{
 			"R1": "alias classification of each datatype.Decoder entry",
 			"R2": "body bytes reaching the AVP decoder have no pooled/shared origin while ALIAS decoders exist",
 			"R3": "Header fields are scalars; the Message's Header is freshly allocated",
 			"R4": "no pool-derived reference stored into returned objects; pool release only via defer",
 			"R5": "writing / serialising / inspecting a message stores nothing into the message, its header or its AVPs",
+			"R6": "the library's own handlers (state machine) add nothing to, and store nothing into, the message they are handed or the AVPs parsed out of it",
 		},
-		MinInstances: map[string]int{"R1": 10, "R2": 1, "R3": 2, "R4": 1, "R5": 1},
+		MinInstances: map[string]int{"R1": 10, "R2": 1, "R3": 2, "R4": 1, "R5": 1, "R6": 3},
 		Assumptions:  []string{"sync.Pool may hand the same object to any later Get", "[]byte→string conversion copies"},
 	})
 }
@@ -278,6 +280,7 @@ func runC06(c *Ctx) {
 	r.Ok("R4", "ReadPath:no-pool-reference-retained", "-", fmt.Sprintf("%d reference stores into Message/AVP/Header/package state on the read path, none pool-derived", nst))
 	// ---- R5: read-only API ----
 	c.c06ReadOnly()
+	c.c06Handlers()
 	// release discipline
 	for _, f := range c.P.LibraryFuncs() {
 		if pkgOf(f).Path() != pkgDiam {
@@ -325,6 +328,35 @@ func (c *Ctx) c06ReadOnly() {
 	}
 	cl := c.reach(roots, false, false, true)
 	n, bad := 0, 0
+	// reflection writes element-wise into whatever array a destination slice points to; after an earlier
+	// Unmarshal that array can be a decoded message's body (byte-slice fields are set to the message's own
+	// bytes), so the read-only API must not reflect.Copy into anything but a slice it has just made
+	nCopy := 0
+	for f := range cl {
+		if !c.P.IsLibrary(f) {
+			continue
+		}
+		for _, ci := range flow.CallInstrs(f) {
+			o := flow.CalleeObj(ci)
+			if o == nil || o.Pkg() == nil || o.Pkg().Path() != "reflect" || o.Name() != "Copy" || len(ci.Common().Args) != 2 {
+				continue
+			}
+			nCopy++
+			fresh := false
+			if call, ok := flow.Peel(ci.Common().Args[0]).(*ssa.Call); ok {
+				if oo := flow.CalleeObj(call); oo != nil && oo.Pkg() != nil && oo.Pkg().Path() == "reflect" && oo.Name() == "MakeSlice" {
+					fresh = true
+				}
+			}
+			if !fresh {
+				bad++
+				r.Fail("R5", fname(f)+":reflect-copy-into-existing-storage", c.pos(ci), "the read-only API copies, by reflection, into the storage a destination value already has: after an earlier Unmarshal that storage can be the body of a decoded message, which then changes although it was returned long ago")
+			}
+		}
+	}
+	if nCopy == 0 {
+		r.Ok("R5", "read-only-api:no-reflect-copy", "-", "no reflect.Copy on the read-only API")
+	}
 	for f := range cl {
 		if !c.P.IsLibrary(f) {
 			continue
@@ -368,5 +400,114 @@ func (c *Ctx) c06ReadOnly() {
 	}
 	if bad == 0 {
 		r.Ok("R5", "read-only-api:no-stores", "-", fmt.Sprintf("%d functions reachable from %d read-only API methods; %d stores to Message/Header/AVP fields, none into a caller-supplied object", len(cl), len(roots), n))
+	}
+}
+
+// c06Handlers: R6 — a message stays what the reader returned while the library's own handlers process it. For
+// every function of package sm that takes a *diam.Message (handlers, their closures and helpers):
+//   - no mutating Message method is called on that parameter,
+//   - no store goes into a field reached from it,
+//   - no store goes into a field of a *diam.AVP loaded from a struct of package smparser (the parse result of
+//     that message, whose *AVP fields are documented to reference the message's AVPs).
+func (c *Ctx) c06Handlers() {
+	r := c.R
+	n := 0
+	for _, f := range c.P.LibraryFuncs() {
+		if pkgOf(f) == nil || !strings.HasPrefix(pkgOf(f).Path(), pkgSM) {
+			continue
+		}
+		// message values that are the received message: *Message parameters, and free variables of closures bound to them
+		var msgs []ssa.Value
+		for _, p := range f.Params {
+			if isMsgPtr(p.Type()) {
+				msgs = append(msgs, p)
+			}
+		}
+		for _, fv := range f.FreeVars {
+			if isMsgPtr(fv.Type()) {
+				if b := flow.BoundValue(fv); b != nil {
+					if _, isP := flow.Peel(b).(*ssa.Parameter); isP {
+						msgs = append(msgs, fv)
+					}
+				}
+			}
+		}
+		isMsg := func(v ssa.Value) bool {
+			v = flow.Peel(v)
+			for _, m := range msgs {
+				if v == m || spilledParam(v) != nil && ssa.Value(spilledParam(v)) == m {
+					return true
+				}
+			}
+			return false
+		}
+		if len(msgs) == 0 && !strings.HasPrefix(pkgOf(f).Path(), pkgSM) {
+			continue
+		}
+		bad := ""
+		var at ssa.Instruction
+		flow.Instrs(f, func(in ssa.Instruction) {
+			if bad != "" {
+				return
+			}
+			switch x := in.(type) {
+			case ssa.CallInstruction:
+				for _, name := range []string{"NewAVP", "AddAVP", "InsertAVP", "Marshal"} {
+					if flow.IsCallTo(x, pkgDiam, "Message", name) && len(x.Common().Args) > 0 && isMsg(x.Common().Args[0]) {
+						bad, at = "calls "+name+" on the message it was handed", in
+					}
+				}
+			case *ssa.Store:
+				root, fields, ok := fieldPath(x.Addr)
+				if !ok {
+					return
+				}
+				if isMsg(root) {
+					bad, at = "stores into "+strings.Join(fields, ".")+" of the message it was handed", in
+					return
+				}
+				// a field of an AVP reached through the parse result (parsed.SomeAVP.Data = …)
+				if pt, isPtr := flow.Peel(root).Type().Underlying().(*types.Pointer); isPtr && len(fields) >= 2 {
+					if nt := flow.NamedOf(pt.Elem()); nt != nil && nt.Obj().Pkg() != nil && nt.Obj().Pkg().Path() == pkgSMParser {
+						if st, isSt := nt.Underlying().(*types.Struct); isSt {
+							for i := 0; i < st.NumFields(); i++ {
+								if st.Field(i).Name() != fields[0] {
+									continue
+								}
+								if apt, ok := st.Field(i).Type().(*types.Pointer); ok && flow.TypeIs(apt.Elem(), pkgDiam, "AVP") {
+									bad, at = "stores into "+strings.Join(fields, ".")+" of the parsed "+nt.Obj().Name()+" (an AVP that references the received message's AVPs)", in
+									return
+								}
+							}
+						}
+					}
+				}
+				// an AVP taken from the parse result: *(&parsed.Field) of a struct declared in smparser
+				if ld, isLd := flow.Peel(root).(*ssa.UnOp); isLd && ld.Op == token.MUL {
+					if fa, isFA := ld.X.(*ssa.FieldAddr); isFA {
+						if pt, isPtr := fa.X.Type().Underlying().(*types.Pointer); isPtr {
+							if nt := flow.NamedOf(pt.Elem()); nt != nil && nt.Obj().Pkg() != nil && nt.Obj().Pkg().Path() == pkgSMParser {
+								if apt, ok := ld.Type().(*types.Pointer); ok && flow.TypeIs(apt.Elem(), pkgDiam, "AVP") {
+									bad, at = "stores into "+strings.Join(fields, ".")+" of an AVP taken from the parsed "+nt.Obj().Name()+" (which references the received message's AVPs)", in
+								}
+							}
+						}
+					}
+				}
+			}
+		})
+		if len(msgs) == 0 && bad == "" {
+			continue
+		}
+		n++
+		key := fname(f) + ":request-read-only"
+		if bad != "" {
+			r.Fail("R6", key, c.pos(at), "a handler of the library "+bad+": a message that another handler or goroutine keeps changes after the reader returned it")
+		} else {
+			r.Ok("R6", key, c.fpos(f), "nothing is added to or stored into the received message")
+		}
+	}
+	if n == 0 {
+		r.Undecided("R6", "role:sm-handlers", "-", "no function of package sm takes a *diam.Message")
 	}
 }
